@@ -4,7 +4,8 @@ from trees import *  # noqa
 import remerkleable.tree as rtree
 from remerkleable.tree import get_depth
 
-THEOREMS = []
+THEOREMS = ["C19_setter_allocates_only", "C19_setter_sharing", "C19_setter_refines", "C19_cached_free", "C19_idle"]
+PARTIAL = ["C19_view_ops (the compositions used by set / append / pop / bit ops / field set) and the exact cost formula of merkle_root (= number of reachable uncached pairs) are not separate theorems: view-level sharing and the 2*depth+3+|new value| hash bound are checked model-free by the correspondence"]
 COQ_IMPORTS = ["RMR.RunC19"]
 COQ_FN = "RunC19.run"
 COQ_CASE_TY = "RunC19.case"
